@@ -122,6 +122,14 @@ pub fn index_file(f: &GenFile) -> NodeIndex {
             add(s.id(), k);
             match s {
                 Stmt::If { cond, .. } | Stmt::While { cond, .. } | Stmt::For { cond, .. } => add(cond.id(), Kind::Condition),
+                // a tuple assignment is the element-wise assignments: each target element stands for its own assignment
+                Stmt::Assign { lhs: Expr::Tuple { elems, .. }, op, .. } => {
+                    for e in elems {
+                        if let Expr::Var { id, .. } = e {
+                            add(*id, if *op == AssignOp::Signal { Kind::SignalAssign } else { Kind::OtherAssign });
+                        }
+                    }
+                }
                 _ => {}
             }
             for e in s.exprs() {
@@ -178,6 +186,12 @@ fn subject(id: &str, r: &Report) -> Option<String> {
     }
 }
 
+/// `<name>_<digits>_<digits>`: the shape of the variables introduced for anonymous components.
+fn is_synthetic(name: &str) -> bool {
+    let parts: Vec<&str> = name.rsplitn(3, '_').collect();
+    parts.len() == 3 && !parts[2].is_empty() && parts[0].chars().all(|c| c.is_ascii_digit()) && parts[1].chars().all(|c| c.is_ascii_digit()) && !parts[0].is_empty() && !parts[1].is_empty()
+}
+
 pub struct ProjIndex {
     /// by file name as registered in the file library
     pub files: BTreeMap<String, (String, NodeIndex)>,
@@ -209,6 +223,7 @@ fn check_report(r: &Report, files: &program_structure::file_definition::FileLibr
             rec.class("labels_after_multibyte_or_comment");
         }
         let span = trim_end(&nodes.blank, (s, e));
+        let mut synthetic = false;
         // parse errors and the like point at tokens, not at generator nodes
         if id.starts_with('P') {
             continue;
@@ -224,7 +239,14 @@ fn check_report(r: &Report, files: &program_structure::file_definition::FileLibr
             }
             Some(kinds) => {
                 if primary {
-                    if let Some(adm) = admissible(&id) {
+                    // findings about the variable the desugarer introduces for an anonymous component
+                    // (`<Template>_<line>_<offset>`, a name the source does not contain) are about the call
+                    synthetic = subject(&id, r).map(|n| is_synthetic(&n) && !nodes.blank.contains(n.as_str())).unwrap_or(false);
+                    if let Some(mut adm) = admissible(&id) {
+                        if synthetic {
+                            rec.class("labels_for_anonymous_component_variables");
+                            adm = vec![Kind::Call];
+                        }
                         rec.class(&format!("construct_checked:{id}"));
                         if !kinds.iter().any(|k| adm.contains(k)) {
                             return Err(Bad::new(format!(
@@ -237,7 +259,8 @@ fn check_report(r: &Report, files: &program_structure::file_definition::FileLibr
                             .sig(format!("C04:wrong-construct:{id}")));
                         }
                     }
-                    if let Some(name) = subject(&id, r) {
+                    if let Some(name) = subject(&id, r).filter(|n| !synthetic) {
+                        let _ = &name;
                         let text = src.get(span.0..span.1).unwrap_or("");
                         let occurs = text.split(|c: char| !(c.is_ascii_alphanumeric() || c == '_' || c == '$')).any(|w| w == name);
                         if !occurs {
@@ -322,7 +345,7 @@ fn check_binary_positions(ctx: &Ctx, named: &[PathBuf], dir: &Path, reports: &[R
 
 fn project_case(ctx: &Ctx, tape: &[u8], rec: &Rec, with_binary: bool) -> Verdict {
     let mut t = Tape::new(tape);
-    let p = gen_project(&mut t, ProjOpts { comments: true, bom_chance: 20, ..ProjOpts::default() });
+    let p = gen_project(&mut t, ProjOpts { comments: true, bom_chance: 20, sugar_chance: 80, ..ProjOpts::default() });
     let dir = scratch(ctx, "c04");
     let r = project_case_in(ctx, &p, rec, &dir, with_binary).map_err(|b| if b.rendered.is_empty() { b.rendered(p.describe()) } else { b });
     let _ = std::fs::remove_dir_all(&dir);
@@ -355,6 +378,9 @@ fn project_case_in(ctx: &Ctx, p: &GenProject, rec: &Rec, dir: &Path, with_binary
     }
     if p.bom_files > 0 {
         rec.class("projects_with_byte_order_mark");
+    }
+    if p.sugared_defs > 0 {
+        rec.class("projects_with_tuple_or_anonymous_component_statements");
     }
     let mut after = 0;
     for r in &reference.reports {
